@@ -49,6 +49,7 @@ class AbstractDenseTimeOnlineInterpreter(AbstractOnlineInterpreter, DenseTimeInt
         # the dense-time operations keep their whole state in fields initialised by
         # their constructors (their reset() methods are empty): build them anew
         self.set_ast(self.ast)
+        self.updateVisitor = DenseTimeOnlineUpdateVisitor()
         return
 
     def update_final(self, dataset):
@@ -85,7 +86,20 @@ class DenseTimeOnlineUpdateVisitor(AbstractOnlineUpdateVisitor):
             sample_return = vals
         return sample_return
 
+    def visitAst(self, ast, *args, **kwargs):
+        self.update_count = getattr(self, 'update_count', 0) + 1
+        return super(DenseTimeOnlineUpdateVisitor, self).visitAst(ast, *args, **kwargs)
+
     def visitConstant(self, node, online_operator_dict, var_object_dict):
+        # A constant is one signal, defined from time 0 on. Its parent operation buffers what it
+        # has not consumed yet, so the signal is handed over in the first update only; repeating
+        # it in every update made the buffers of an operation over two constants run backwards
+        # in time ("Unexpected case in the intersection" at the second update).
+        if not hasattr(self, 'constant_first_update'):
+            self.constant_first_update = dict()
+        first = self.constant_first_update.setdefault(id(node), self.update_count)
+        if first != self.update_count:
+            return []
         sample_return = [[0, node.val], [float("inf"), node.val]]
         return sample_return
 
